@@ -370,6 +370,50 @@ class C07(object):
                 "nontrivial": bool(contested or par), "viol": viol, "measures": meas}
 
 
+    def minimise(self, desc, viol, ctx):
+        """fewer grains, then fewer peaks, while the same violation class persists (the schedule stays seed-determined)"""
+        import time as _time
+        cls = viol["class"]
+        t_end = _time.time() + 90
+
+        def fails(d):
+            if _time.time() > t_end:
+                return False
+            try:
+                r = self.execute(d, ctx)
+            except Exception:
+                return False  # e.g. the f2py wrapper refuses an empty peak list
+            return r["viol"] is not None and r["viol"]["class"] == cls
+        if not fails(desc):
+            return desc
+        d = dict(desc)
+
+        def drop_grain(dd, g):
+            n = dict(dd)
+            n["ubis"] = [u for k, u in enumerate(dd["ubis"]) if k != g]
+            n["order"] = [o - (1 if o > g else 0) for o in dd["order"] if o != g]
+            for key in ("translations", "basis_peaks"):
+                if key in dd:
+                    n[key] = [x for k, x in enumerate(dd[key]) if k != g]
+            return n
+        g = len(d["ubis"]) - 1
+        while g >= 0 and len(d["ubis"]) > 1:
+            cand = drop_grain(d, g)
+            if fails(cand):
+                d = cand
+            g -= 1
+            g = min(g, len(d["ubis"]) - 1)
+        if "gv" in d:
+            def keep(dd, idx):
+                n = dict(dd)
+                n["gv"] = [dd["gv"][i] for i in idx]
+                return n
+            idx = enginea.ddmin(list(range(len(d["gv"]))), lambda sub: fails(keep(d, sub)), max_tests=60, max_seconds=60)
+            if fails(keep(d, idx)):
+                d = keep(d, idx)
+        return d
+
+
 CHECK = C07()
 if __name__ == "__main__":
     sys.exit(runner.main(CHECK))
